@@ -28,6 +28,18 @@ NP_KERNELS = [
          calls={"bit_to_int": ("SG_bit_to_int", ["Mat", "OptVec"], "Vec"), "gray_to_bit": ("GC_gray_to_bit", ["Mat"], "Mat")}),
 ]
 
+B = "benchmarks/_optproblems.py"
+
+# elementwise benchmark functions over float arrays (floats read as field elements: TFV.Model.NpQ); `cos2pi` names the function
+# parameter that stands for a -> cos(2*pi*a)
+NPQ_KERNELS = [
+    dict(name="Bench_OneMax_f", file=B, cls="OneMax", func="f"),
+    dict(name="Bench_Sphere_f", file=B, cls="Sphere", func="f"),
+    dict(name="Bench_Schwefel12_f", file=B, cls="Schwefe1_2", func="f"),
+    dict(name="Bench_Rosenbrock_f", file=B, cls="Rosenbrock", func="f"),
+    dict(name="Bench_Rastrigin_f", file=B, cls="Rastrigin", func="f", cos2pi="cs"),
+]
+
 LEAN_TY = {"Mat": "Np.Mat", "Vec": "List Int", "OptVec": "Option (List Int)", "Nat": "Nat", "OptNat": "Option Nat"}
 
 
@@ -281,16 +293,124 @@ class Tr:
                 + f"def {cfg['name']} " + " ".join(params) + f" : Option ({LEAN_TY[cfg['ret']]}) := do\n" + "\n".join(self.lines) + "\n\nend TFV.Generated.Src\n")
 
 
+class TrQ:
+    """straight-line elementwise float code: `name = <array expression>` ... `return <vector expression>`"""
+
+    def __init__(self, fn, cfg):
+        self.fn, self.cfg = fn, cfg
+        self.env = {"x": "Q"}
+        self.lines = []
+        self.n = 0
+
+    def bind(self, expr):
+        self.n += 1
+        t = f"t{self.n}"
+        self.lines.append(f"  let {t} ← {expr}")
+        return t
+
+    @staticmethod
+    def lit(e):
+        if isinstance(e, ast.Constant) and isinstance(e.value, int) and not isinstance(e.value, bool):
+            return f"({e.value} : Rat)"
+        return None
+
+    def E(self, e):
+        """-> (lean term, kind) with kind Q (array), QT (the same array seen through .T), V (vector), S (literal)"""
+        if self.lit(e):
+            return self.lit(e), "S"
+        if isinstance(e, ast.Name):
+            if e.id not in self.env:
+                raise NotRecognised(f"unknown name {e.id}")
+            return e.id, self.env[e.id]
+        if isinstance(e, ast.Attribute) and e.attr == "T":
+            x, k = self.E(e.value)
+            if k not in ("Q", "QT"):
+                raise NotRecognised(".T of a non-array")
+            return x, "QT" if k == "Q" else "Q"
+        if isinstance(e, ast.Subscript):
+            x, k = self.E(e.value)
+            sl = e.slice
+            if k == "QT" and isinstance(sl, ast.Slice) and sl.step is None:
+                if sl.lower is None and sl.upper is not None and is_const(sl.upper, -1):
+                    return f"(NpQ.colsDropLast {x})", "QT"
+                if sl.upper is None and sl.lower is not None and is_const(sl.lower, 1):
+                    return f"(NpQ.colsFrom1 {x})", "QT"
+            raise NotRecognised("subscript " + ast.unparse(e))
+        if isinstance(e, ast.BinOp):
+            if isinstance(e.op, ast.Pow):
+                x, k = self.E(e.left)
+                if k in ("Q", "QT") and isinstance(e.right, ast.Constant) and isinstance(e.right.value, int) and e.right.value >= 0:
+                    return f"(NpQ.map (fun a => a ^ {e.right.value}) {x})", k
+                raise NotRecognised("power " + ast.unparse(e))
+            op = {ast.Add: "+", ast.Sub: "-", ast.Mult: "*"}.get(type(e.op))
+            if op is None:
+                raise NotRecognised("operator in " + ast.unparse(e))
+            (a, ka), (b, kb) = self.E(e.left), self.E(e.right)
+            if ka in ("Q", "QT") and kb == "S":
+                return f"(NpQ.map (fun a => a {op} {b}) {a})", ka
+            if ka == "S" and kb in ("Q", "QT"):
+                return f"(NpQ.map (fun a => {a} {op} a) {b})", kb
+            if ka == kb and ka in ("Q", "QT"):
+                return self.bind(f"NpQ.zip (fun a b => a {op} b) {a} {b}"), ka
+            raise NotRecognised("operand kinds in " + ast.unparse(e))
+        if isinstance(e, ast.Call):
+            f = e.func
+            kw = {k.arg: k.value for k in e.keywords}
+            if is_np(f, "sum") and len(e.args) == 1 and "axis" in kw and (is_const(kw["axis"], -1) or is_const(kw["axis"], 1)) \
+                    and all(k == "axis" or (k == "dtype" and ast.unparse(v) == "np.float64") for k, v in kw.items()):
+                x, k = self.E(e.args[0])
+                if k != "Q":
+                    raise NotRecognised("sum of a non-array (or of a transposed one)")
+                return f"(NpQ.sumRows {x})", "V"
+            if is_np(f, "add", "accumulate") and len(e.args) == 1 and list(kw) == ["axis"] and is_const(kw["axis"], -1):
+                x, k = self.E(e.args[0])
+                if k != "Q":
+                    raise NotRecognised("accumulate of a non-array")
+                return f"(NpQ.accumulate {x})", "Q"
+            if is_np(f, "cos") and len(e.args) == 1 and not kw and self.cfg.get("cos2pi"):
+                a = e.args[0]
+                if isinstance(a, ast.BinOp) and isinstance(a.op, ast.Mult) and ast.unparse(a.left) == "2 * np.pi":
+                    x, k = self.E(a.right)
+                    if k in ("Q", "QT"):
+                        return f"(NpQ.map {self.cfg['cos2pi']} {x})", k
+        raise NotRecognised("expression " + ast.unparse(e)[:60])
+
+    def render(self):
+        cfg = self.cfg
+        if [a.arg for a in self.fn.args.args] != ["self", "x"]:
+            raise NotRecognised("parameters")
+        body = [st for st in self.fn.body if not (isinstance(st, ast.Expr) and isinstance(st.value, ast.Constant))]
+        if not body or not isinstance(body[-1], ast.Return) or body[-1].value is None:
+            raise NotRecognised("the function does not end in a return")
+        for st in body[:-1]:
+            if not (isinstance(st, ast.Assign) and len(st.targets) == 1 and isinstance(st.targets[0], ast.Name)):
+                raise NotRecognised("statement " + ast.unparse(st)[:60])
+            x, k = self.E(st.value)
+            if k not in ("Q", "QT"):
+                raise NotRecognised("assigned kind")
+            self.lines.append(f"  let {st.targets[0].id} := {x}")
+            self.env[st.targets[0].id] = k
+        x, k = self.E(body[-1].value)
+        if k != "V":
+            raise NotRecognised("returned kind")
+        self.lines.append(f"  return {x}")
+        params = ([f"({cfg['cos2pi']} : Rat → Rat)"] if cfg.get("cos2pi") else []) + ["(x : NpQ.Mat)"]
+        return ("/- GENERATED by harness/extract/np2lean.py from src/thefittest/" + cfg["file"] + f" ({cfg['cls']}.{cfg['func']}) — do not edit -/\n"
+                + "import TFV.Model.NpQ\nnamespace TFV.Generated.Src\nopen TFV\n\n"
+                + f"def {cfg['name']} " + " ".join(params) + " : Option (List Rat) := do\n" + "\n".join(self.lines) + "\n\nend TFV.Generated.Src\n")
+
+
 def translate(repo: Path, cfg: dict) -> str:
     src = (repo / "src" / "thefittest" / cfg["file"]).read_text()
-    return Tr(find_method(ast.parse(src), cfg["cls"], cfg["func"]), cfg).render()
+    fn = find_method(ast.parse(src), cfg["cls"], cfg["func"])
+    return (TrQ if cfg in NPQ_KERNELS else Tr)(fn, cfg).render()
 
 
 def main(repo="/repo", out="/verif/lean/TFV/Generated/Src", only=None):
     repo, out = Path(repo), Path(out)
     out.mkdir(parents=True, exist_ok=True)
     status = {}
-    for cfg in NP_KERNELS:
+    for cfg in NP_KERNELS + NPQ_KERNELS:
         if only and cfg["name"] not in only:
             continue
         target = out / f"{cfg['name']}.lean"
@@ -298,7 +418,7 @@ def main(repo="/repo", out="/verif/lean/TFV/Generated/Src", only=None):
             text = translate(repo, cfg)
             status[cfg["name"]] = "ok"
         except NotRecognised as e:
-            text = (f"/- GENERATED: translation FAILED ({e}) -/\nimport TFV.Model.Np\nnamespace TFV.Generated.Src\n"
+            text = (f"/- GENERATED: translation FAILED ({e}) -/\nimport TFV.Model.Np\nimport TFV.Model.NpQ\nnamespace TFV.Generated.Src\n"
                     f"/-- the source of `{cfg['func']}` is outside the translatable subset: {e} -/\n"
                     f"def {cfg['name']}.notRecognised : Unit := ()\nend TFV.Generated.Src\n")
             status[cfg["name"]] = f"not recognised: {e}"
